@@ -138,11 +138,10 @@ QueryOk(q) ==
 \* two observations of the score of one document whose symbolic term is t
 Agree(a, b, t) == IF Leaves(t) = 1 THEN SameBits(a, b) ELSE Within(a, b, Tol(t))
 
-HitOk(q, h, st) ==
-  LET d == cs.docs[h.doc]
-      t == ScoreTerm(q, d, st, <<>>, cs.fn[h.doc])
+HitOkD(q, h, st, d, fnid) ==
+  LET t == ScoreTerm(q, d, st, <<>>, fnid)
   IN  /\ Chk(\A w \in cs.vocab : h.tfs[w] = Tf(d, w), "hit: term frequencies")
-      /\ Chk(h.fnid = cs.fn[h.doc], "hit: fieldnorm id")
+      /\ Chk(h.fnid = fnid, "hit: fieldnorm id")
       /\ Chk(IsSome(t) /\ h.term = t, "hit: the kernel was not evaluated on the symbolic term of the specification")
       /\ Chk("kernel" \in DOMAIN h /\ IsPosFinite(h.kernel) /\ IsPosFinite(h.coll), "hit: scores are positive finite")
       /\ Chk(Agree(h.kernel, h.coll, t), "score: collector differs from BM25 over the searcher statistics")
@@ -154,6 +153,8 @@ HitOk(q, h, st) ==
                ELSE IF Leaves(t) = 1 /\ StrictBoostedExplain
                  THEN Chk(SameBits(h.expl, h.coll), "explain: boosted explain differs from score (single boosted clause)")
                ELSE Chk(Within(h.expl, h.coll, Tol(t)), "explain: differs from score beyond rounding")
+
+HitOk(q, h, st) == HitOkD(q, h, st, cs.docs[h.doc], cs.fn[h.doc])
 
 TopOk(q, t, hits) ==
   /\ Chk(Len(t.res) = Min(t.k, Len(hits)), "topdocs: number of results")
@@ -212,10 +213,122 @@ TQuery ==
        /\ CrossOk(Ev.runs[1], Ev.runs[3], "merge")
   /\ UNCHANGED <<tab, cs, ix>>
 
+-----------------------------------------------------------------------------
+(* Big cases: segments of several thousand small documents.  Document i has the shape          *)
+(* shapes[pattern[(i-1) mod p + 1]], so N, n(t), T and the number of matches are sums of         *)
+(* count * per-shape values - nothing here walks over the documents.  Per query the harness     *)
+(* logs, per (segment, shape), the histogram of score bit patterns the collector and            *)
+(* TopDocs(K >= all) produced, and the full observation for a sample of matching documents      *)
+(* (first / last, around every 4096-document boundary of the segment, the TopDocs(10) results). *)
+(* Rule added here: documents with identical field contents in one segment get one score        *)
+(* (bit-identical; within the rounding bound when >= 3 clauses are summed, see OrderFree).       *)
+BP == Len(cs.pattern)
+BShapeIx(i) == cs.pattern[((i - 1) % BP) + 1]
+\* number of documents of shape s among the ids 1..n, and among lo..hi
+BCountUpTo(s, n) == (n \div BP) * Cardinality({j \in 1..BP : cs.pattern[j] = s})
+                    + Cardinality({j \in 1..(n % BP) : cs.pattern[j] = s})
+BCount(s, lo, hi) == BCountUpTo(s, hi) - BCountUpTo(s, lo - 1)
+BShapes == DOMAIN cs.shapes
+
+TBReset ==
+  /\ Ev.ev = "breset"
+  /\ UNCHANGED tab
+  /\ Len(tab) = 256
+  /\ Ev.filler = Filler /\ Filler \notin SeqToSet(Ev.vocab)
+  /\ {i \in DOMAIN Ev.shapes : ~(SeqToSet(Ev.shapes[i].toks) \subseteq SeqToSet(Ev.vocab) /\ Ev.shapes[i].pad >= 0)} = {}
+  /\ Ev.pattern # <<>> /\ SeqToSet(Ev.pattern) \subseteq DOMAIN Ev.shapes
+  /\ Ev.nd >= 1
+  /\ cs' = [big |-> TRUE, shapes |-> Ev.shapes, pattern |-> Ev.pattern, nd |-> Ev.nd, vocab |-> SeqToSet(Ev.vocab),
+            dels |-> {}, fn |-> [i \in DOMAIN Ev.shapes |-> NormId(tab, DocLen(Ev.shapes[i]))]]
+  /\ ix' = [multi |-> NoIndex, single |-> NoIndex, merged |-> NoIndex]
+
+BSegT(sg) == SumSeq([s \in BShapes |-> BCount(s, sg.first, sg.last) * DocLen(cs.shapes[s])])
+BSegDf(sg, w) == SumSeq([s \in BShapes |-> IF Tf(cs.shapes[s], w) > 0 THEN BCount(s, sg.first, sg.last) ELSE 0])
+
+BSegOk(sg) ==
+  /\ Chk(sg.consecutive /\ sg.first >= 1 /\ sg.last <= cs.nd /\ sg.max_doc = sg.last - sg.first + 1 /\ sg.num_docs = sg.max_doc,
+         "big segment: not a run of consecutive documents")
+  /\ Chk(sg.T = BSegT(sg), "big segment: total_num_tokens")
+  /\ Chk({w \in cs.vocab : sg.df[w] # BSegDf(sg, w)} = {}, "big segment: doc_freq")
+  /\ Chk({j \in DOMAIN sg.fnids : ~(sg.fnids[j].shape \in BShapes /\ sg.fnids[j].ids = <<cs.fn[sg.fnids[j].shape]>>)} = {},
+         "big segment: fieldnorm id of a shape is not the largest table entry <= its length")
+  /\ Chk({sg.fnids[j].shape : j \in DOMAIN sg.fnids} = {s \in BShapes : BCount(s, sg.first, sg.last) > 0},
+         "big segment: shapes present")
+
+TBIndex ==
+  /\ Ev.ev = "bindex" /\ "big" \in DOMAIN cs
+  /\ UNCHANGED <<tab, cs>>
+  /\ Chk(SumSeq([k \in DOMAIN Ev.segs |-> Ev.segs[k].max_doc]) = cs.nd
+         /\ Cardinality({Ev.segs[k].first : k \in DOMAIN Ev.segs}) = Len(Ev.segs)
+         /\ {k \in DOMAIN Ev.segs : Ev.segs[k].first # 1 /\ {j \in DOMAIN Ev.segs : Ev.segs[j].last = Ev.segs[k].first - 1} = {}} = {},
+         "big index: the segments do not partition the corpus")
+  /\ {k \in DOMAIN Ev.segs : ~BSegOk(Ev.segs[k])} = {}
+  /\ ix' = [ix EXCEPT !.multi =
+              [ok |-> TRUE,
+               st |-> [N |-> SumSeq([k \in DOMAIN Ev.segs |-> Ev.segs[k].max_doc]),
+                       T |-> SumSeq([k \in DOMAIN Ev.segs |-> BSegT(Ev.segs[k])]),
+                       n |-> [w \in cs.vocab |-> SumSeq([k \in DOMAIN Ev.segs |-> BSegDf(Ev.segs[k], w)])]],
+               alive |-> {},
+               segs |-> [k \in DOMAIN Ev.segs |-> [first |-> Ev.segs[k].first, last |-> Ev.segs[k].last]]]]
+
+\* all scores of one histogram are one value (or, for order-dependent sums, within the bound of the first)
+OneScore(hist, t) ==
+  IF OrderFree(t) THEN Len(hist) = 1
+  ELSE {j \in DOMAIN hist : ~Within(hist[j], hist[1], Tol(t))} = {}
+
+BGroupOk(q, g, st) ==
+  LET sg == ix.multi.segs[g.seg]
+      d == cs.shapes[g.shape]
+      t == ScoreTerm(q, d, st, <<>>, cs.fn[g.shape])
+      cnt == BCount(g.shape, sg.first, sg.last)
+  IN  /\ Chk(IsSome(t) /\ cnt > 0, "big: scores reported for documents that do not match")
+      /\ Chk(g.coll # <<>> /\ SumSeq([j \in DOMAIN g.coll |-> g.coll[j].n]) = cnt, "big: the collector did not see every matching document of the shape")
+      /\ Chk(g.top # <<>> /\ SumSeq([j \in DOMAIN g.top |-> g.top[j].n]) = cnt, "big: TopDocs(K >= all) did not return every matching document of the shape")
+      /\ Chk({j \in DOMAIN g.coll : ~IsPosFinite(g.coll[j])} = {} /\ {j \in DOMAIN g.top : ~IsPosFinite(g.top[j])} = {}, "big: scores are positive finite")
+      /\ Chk(OneScore(g.coll, t), "big: identical documents of one segment get different scores (collector)")
+      /\ Chk(OneScore(g.top, t), "big: identical documents of one segment get different scores (TopDocs)")
+      /\ Chk(Agree(g.top[1], g.coll[1], t), "big: TopDocs score differs from the collector's")
+
+BHitOk(q, h, st, groups) ==
+  LET s == BShapeIx(h.doc)
+      sg == ix.multi.segs[h.seg]
+  IN  /\ Chk(h.doc \in sg.first..sg.last /\ h.local = h.doc - sg.first, "big hit: document address")
+      /\ HitOkD(q, h, st, cs.shapes[s], cs.fn[s])
+      /\ Chk("top" \in DOMAIN h /\ IsPosFinite(h.top) /\ Agree(h.top, h.coll, h.term), "big hit: TopDocs score differs from the collector's")
+      \* the sampled document is one of the documents counted in its group's histograms
+      /\ Chk({j \in DOMAIN groups : groups[j].seg = h.seg /\ groups[j].shape = s
+                                    /\ {i \in DOMAIN groups[j].coll : SameBits(groups[j].coll[i], h.coll)} # {}
+                                    /\ {i \in DOMAIN groups[j].top : SameBits(groups[j].top[i], h.top)} # {}} # {},
+             "big hit: its score is not in the histogram of its (segment, shape)")
+
+TBQuery ==
+  /\ Ev.ev = "bquery" /\ "big" \in DOMAIN cs /\ ix.multi.ok
+  /\ UNCHANGED <<tab, cs, ix>>
+  /\ Chk(QueryOk(Ev.q), "query: malformed")
+  /\ LET st == ix.multi.st
+         matching == {s \in BShapes : Matches(Ev.q, cs.shapes[s])}
+         expected == {<<k, s>> \in (DOMAIN ix.multi.segs) \X matching : BCount(s, ix.multi.segs[k].first, ix.multi.segs[k].last) > 0}
+     IN  /\ Chk(Ev.N = st.N, "stats: total_num_docs is not the sum of max_doc over the segments")
+         /\ Chk(Ev.T = st.T, "stats: total_num_tokens is not the sum over the segments")
+         /\ Chk({w \in cs.vocab : Ev.df[w] # st.n[w]} = {}, "stats: doc_freq is not the sum over the segments")
+         /\ Chk(Ev.nhits = SumSeq([s \in BShapes |-> IF s \in matching THEN BCountUpTo(s, cs.nd) ELSE 0]) /\ Ev.ntop = Ev.nhits,
+                "big: the number of matching documents is not what the query means")
+         /\ Chk({<<Ev.groups[j].seg, Ev.groups[j].shape>> : j \in DOMAIN Ev.groups} = expected /\ Len(Ev.groups) = Cardinality(expected),
+                "big: the (segment, shape) groups with matches are not those the query means")
+         /\ {j \in DOMAIN Ev.groups : ~BGroupOk(Ev.q, Ev.groups[j], st)} = {}
+         /\ Chk({i \in 1..(Len(Ev.hits) - 1) : Ev.hits[i].doc >= Ev.hits[i + 1].doc} = {}, "hits: not sorted / duplicate")
+         /\ Chk({i \in DOMAIN Ev.hits : ~(Ev.hits[i].doc \in 1..cs.nd /\ Ev.hits[i].seg \in DOMAIN ix.multi.segs /\ BShapeIx(Ev.hits[i].doc) \in matching)} = {},
+                "big: a sampled hit does not match the query")
+         /\ {i \in DOMAIN Ev.hits : ~BHitOk(Ev.q, Ev.hits[i], st, Ev.groups)} = {}
+         /\ Chk(Len(Ev.top10) = Min(10, Ev.nhits), "topdocs: number of results")
+         /\ Chk({j \in DOMAIN Ev.top10 : {i \in DOMAIN Ev.hits : Ev.hits[i].doc = Ev.top10[j].doc /\ IsPosFinite(Ev.top10[j].s)
+                                                              /\ Agree(Ev.top10[j].s, Ev.hits[i].coll, Ev.hits[i].term)} = {}} = {},
+                "topdocs: score differs from the collector's")
+
 \* "panic" / "error" events have no action: a panic of the code under test is never accepted
 TNext ==
   /\ l <= Len(Rec) /\ l' = l + 1
-  /\ \/ TTable \/ TReset \/ TIndex \/ TMerged \/ TQuery
+  /\ \/ TTable \/ TReset \/ TIndex \/ TMerged \/ TQuery \/ TBReset \/ TBIndex \/ TBQuery
   /\ UNCHANGED vars
 
 TInit == /\ l = 1 /\ tab = <<>> /\ cs = NoCase /\ ix = [multi |-> NoIndex, single |-> NoIndex, merged |-> NoIndex]
